@@ -44,6 +44,7 @@ import DateutilVerif.Proofs.CacheNestedStep
 import DateutilVerif.Proofs.CacheNestedInit
 import DateutilVerif.Proofs.CacheNestedProgress
 import DateutilVerif.Generated.RRBaseCache
+import DateutilVerif.Generated.RSetMerge
 
 namespace C11
 open Cache Queries
@@ -385,6 +386,17 @@ theorem gen_restartable_eq_model (src : List Int) (e : Option Py.PyErr) (pos : N
 example : (CachePy.runRestartNext { Gen.restartableProgram with restartsAtPos := false } [7] (some .ZeroDivisionError) { pos := 1, inner := 1 }).bind
             (fun r => CachePy.runRestartNext { Gen.restartableProgram with restartsAtPos := false } [7] (some .ZeroDivisionError) r.2)
           = some (.stop, { pos := 1, inner := 1, dead := true }) := by decide
+
+/-- **mutators_invalidate_after.** The decorator `_invalidates_cache` as translated from the source runs the wrapped mutator FIRST
+    and `_invalidate_cache()` AFTER it, and not before: a reader thread scheduled inside a mutator call can only fill the cache of the
+    generation that the call then throws away — with the order reversed it would complete the FRESH cache from the old members and
+    the mutation would be lost (schedule stream `mutator_schedules`; C10 `gen_mutators_eq_model` is the same obligation on the members). -/
+theorem mutators_invalidate_after :
+    Gen.invalidatesDecorator.callsWrapped = true ∧ Gen.invalidatesDecorator.thenInvalidates = true ∧
+    Gen.invalidatesDecorator.invalidatesBefore = false ∧
+    ∀ (m : RSet.Members) (d : Int), MergePy.runMutDate Gen.invalidatesDecorator Gen.rsetMutators .rdate m d =
+      some ({ m with rdates := m.rdates ++ [d] }, true) :=
+  ⟨rfl, rfl, rfl, fun _ _ => rfl⟩
 
 /-! ### the underlying generator raises: cached = uncached (D-C11-genraise repaired in /repo) -/
 
